@@ -31,7 +31,8 @@ ENV = {"TSAN_OPTIONS": vdriver.SAN_ENV["TSAN_OPTIONS"] + ":report_thread_leaks=1
 #          `reload-thread` when the stack runs on the library's configuration-reload thread
 #          (outermost frame ares_reinit_thread): what such a thread races with matters, not where it was.
 #          `ares_destroy` / `ares_library_cleanup` when the stack is inside those teardown entry points.
-#   order: data races: sides that held NO mutex first (the culprit of a forgotten lock), then alphabetical; so
+#   order: data races: a side that is just malloc/free recycling the block goes last; otherwise sides that held NO
+#          mutex first (the culprit of a forgotten lock), then alphabetical; so
 #          a known finding "entry point X forgets the lock" is the anchored prefix `tsan:data-race:X|`.
 #          other kinds: report order (faulting access first).
 #   descriptor races (`Location is file descriptor`): tsan:fd-race:<side operating on the stale number>.
@@ -44,6 +45,7 @@ _SKIP_HDR = re.compile(r"^\s+(Location is|Mutex M\d+ \(|As if synchronized|Threa
                        r"Thread T\d+ \(.*running\)|Mutex M\d+ is already|Mutex M\d+ previously)")
 
 
+_ALLOC_CALLS = {"malloc", "calloc", "realloc", "free", "posix_memalign", "strdup"}
 _FD_MAKERS = {"socket", "socketpair", "epoll_create1", "epoll_create", "inotify_init1", "inotify_init", "pipe",
               "pipe2", "open", "close", "dup", "dup2", "accept", "eventfd", "fopen", "fclose", "creat", "openat"}
 
@@ -111,9 +113,12 @@ def tsan_keys(text):
             sides = [s for s in stacks if _ACCESS.match(s[0])][:2]
         else:
             sides = [s for s in stacks if not _SKIP_HDR.match(s[0])][:2]
-        labelled = [(("(mutexes:" in h), _side_label(fr)) for h, fr in sides]
+        labelled = [((not fr or fr[0][0] in _ALLOC_CALLS, "(mutexes:" in h), _side_label(fr)) for h, fr in sides]
         if kind == "data-race":
-            labelled.sort()          # sides holding no mutex first, then alphabetical
+            # a side that is the allocator handing out or taking back the block (memory reuse), or whose stack
+            # TSan could not restore, is incidental: last;
+            # then sides holding no mutex first, then alphabetical
+            labelled.sort()
         # other kinds (heap-use-after-free, ...) keep report order: the faulting access first
         key = "tsan:%s:%s" % (kind, "|".join(l for _, l in labelled) or "?")
         if key not in keys:
@@ -122,6 +127,13 @@ def tsan_keys(text):
             for h, fr in sides:
                 inner.append("%s [%s]" % (h.strip()[:60], " < ".join(fn for fn, _ in fr[:6])))
             details.append(" ;; ".join(inner)[:900])
+    # the runtime itself giving up (e.g. pthread_join() on a thread that was joined already)
+    for m in re.finditer(r"ThreadSanitizer: CHECK failed: ([^\n]*)\n((?:\s+#\d+ [^\n]*\n)+)", text):
+        frames = [(fm.group(2), fm.group(3)) for fm in (_FRAME.match(l) for l in m.group(2).splitlines()) if fm]
+        key = "tsan:check-failed:%s" % _side_label(frames)
+        if key not in keys:
+            keys.append(key)
+            details.append(("CHECK failed: %s [%s]" % (m.group(1)[:120], " < ".join(fn for fn, _ in frames[2:9])))[:900])
     return list(zip(keys, details))
 
 
@@ -193,8 +205,34 @@ def foreign_listed_to_inconclusive(res, own, prop):
     res.violations = keep
 
 
-def open_finding_ids():
-    return {e.get("id") for e in vdriver.Known().entries if e.get("status") == "open"}
+def replay(prop, path, tries=6):
+    """Re-run the recorded case a few times (real threads: one run is one sample) and report whether the
+    recorded key shows up again, using the same keyer as the exploration."""
+    import json
+    doc = json.load(open(path))
+    sp = common.spec("etstress", doc["profile"], doc["seed"], flavor=doc.get("flavor"), opts=doc.get("opts", {}),
+                     env=doc.get("env", ENV))
+    work = os.path.join(vdriver.SCRATCH, "etstress-%d-replay" % os.getpid())
+    os.makedirs(work, exist_ok=True)
+    sp["cwd"] = work
+    seen = {}
+    try:
+        for t in range(tries):
+            r = _one(sp, doc["idx"], 330)
+            for v in r.violations:
+                seen.setdefault(v["key"], v)
+            if doc["key"] in seen:
+                break
+    finally:
+        shutil.rmtree(work, ignore_errors=True)
+    for k, v in sorted(seen.items()):
+        print("  saw %s | %s" % (k, v.get("detail", "")[:300]))
+    if doc["key"] in seen:
+        print(seen[doc["key"]].get("log", "")[-3000:])
+        print("VIOLATION property=%s replay=%s key=%s (reproduced)" % (prop, path, doc["key"]))
+        return 1
+    print("replay did not reproduce key %s in %d runs" % (doc["key"], tries))
+    return 0
 
 
 def run(tier, seed, scale=1.0):
